@@ -2,7 +2,9 @@
 //! shared by the C05 and C06 checks.
 
 pub mod conv;
+pub mod dynpath;
 pub mod r#gen;
+pub mod hdrraw;
 pub mod hgen;
 pub mod io;
 pub mod model;
